@@ -262,14 +262,17 @@ macro_rules! num_ops_common {
             x.map_with(y, |x, y| if x > y { !0 } else { 0 })
         }
 
+        // Like the x86 `min` / `max` instructions, these return `y` if the
+        // operands are unordered (NaN) or equal, so that all instruction sets
+        // give the same result.
         #[inline]
         fn min(self, x: $simd, y: $simd) -> $simd {
-            x.map_with(y, |x, y| x.min(y))
+            x.map_with(y, |x, y| if x < y { x } else { y })
         }
 
         #[inline]
         fn max(self, x: $simd, y: $simd) -> $simd {
-            x.map_with(y, |x, y| x.max(y))
+            x.map_with(y, |x, y| if x > y { x } else { y })
         }
     };
 }
